@@ -182,6 +182,11 @@ func C18(tier string) {
 						r.Sample(c18Sample{c.Name, l.Name, sched, tail, need, src.Delivered})
 					}
 				}
+				// on a tree where this loader already over-reads there is nothing to
+				// learn from dragging megabytes through every further schedule
+				if r.Seen("over-read/" + l.Name) {
+					continue
+				}
 				for _, sz := range []int{1, 7, 4096, 1 << 30} {
 					for _, eof := range []bool{false, true} {
 						if sz == 1 && need > 150000 {
@@ -192,6 +197,9 @@ func C18(tier string) {
 						st.Executions++
 						check(src, o, fmt.Sprintf("uniform %d eof-with-data=%v", sz, eof))
 					}
+				}
+				if r.Seen("over-read/" + l.Name) {
+					continue
 				}
 				envx.Explore(bound, func(prefix []int) (*envx.Src, string) {
 					src := &envx.Src{Data: c.Data, Tail: int64(tail), Alpha: envx.Alphabet{Shorts: true, EOFs: true}, Prefix: prefix, MaxTrace: 64, MaxDeliver: need + 1<<20}
@@ -226,6 +234,9 @@ func C18(tier string) {
 							la, lb = &loaders[3], &loaders[3]
 						}
 						for _, warm := range []int{1, 8} {
+							if r.Seen("over-read-after/" + lb.Name) {
+								continue
+							}
 							for w := 0; w < warm; w++ {
 								_, _ = load(la, &envx.Src{Data: files[i].Data, Tail: 1 << 20, Uniform: 1 << 30})
 							}
